@@ -52,6 +52,7 @@ impl<const N: usize> Sodg<N> {
         for (v, vtx) in self
             .vertices
             .iter()
+            .filter(|(_, vtx)| vtx.branch != 0)
             .sorted_by_key(|(v, _)| <usize>::clone(v))
         {
             let mut v_node = XMLElement::new("v");
